@@ -210,6 +210,18 @@ func selfValidate(rc runConfig, spec *PropertySpec) (map[string]interface{}, int
 			}
 		}
 		entry["fired"] = fired
+		if sf.Expect == "silent" {
+			// a behaviour-preserving variant: the property still holds, so no rule may fire
+			if len(fired) == 0 {
+				detected++
+				entry["status"] = "silent as required (behaviour-preserving variant)"
+			} else {
+				defects++
+				entry["status"] = "FALSE ALARM on a behaviour-preserving variant (checker defect)"
+			}
+			list = append(list, entry)
+			continue
+		}
 		switch {
 		case hit:
 			detected++
